@@ -17,7 +17,8 @@ Theorem C10_has_file_extension_never_panics :
 Proof. exact has_file_extension_never_panics_lemma. Qed.
 Print Assumptions C10_has_file_extension_never_panics.
 
-(* isLikelyJSON: str[0] and str[len(str)-1] are in bounds for every byte string ... *)
+(* isLikelyJSON (the string is TrimSpace'd first): str[0] and str[len(str)-1] are in bounds for every
+   byte string ... *)
 Theorem C10_is_likely_json_never_panics :
   forall s : bytes, exists b, is_likely_json s = Ok b.
 Proof. exact is_likely_json_never_panics_lemma. Qed.
@@ -62,9 +63,13 @@ Theorem C10_brace_scan_bytewise :
 Proof. exact brace_scan_bytewise_lemma. Qed.
 Print Assumptions C10_brace_scan_bytewise.
 
-(* srcset / data-srcset splitting in HTMLAssets: strings.Split(..)[0] is in bounds. *)
+(* srcsetURLs (the srcset / data-srcset helper of HTMLAssets, a hand-written index loop): for every
+   attribute value every value[i] and value[start:i] is in bounds, the loops end (outer fuel
+   len+1, inner fuel len+1 each), at most len(value) candidates are produced, and no returned URL is
+   empty. *)
 Theorem C10_srcset_never_panics :
-  forall v : bytes, exists r, srcset_urls v = Ok r.
+  forall v : bytes, exists urls steps,
+    srcset_urls_steps v = Ok (urls, steps) /\ 0 <= steps <= len v /\ Forall (fun u => u <> []) urls.
 Proof. exact srcset_never_panics_lemma. Qed.
 Print Assumptions C10_srcset_never_panics.
 
